@@ -1847,3 +1847,86 @@ func (c *Ctx) r1012() {
 	c.R.Floor(rule, "directly recursive functions", n, 6)
 	c.R.Floor(rule, "depth-guarded recursive functions", guarded, 2)
 }
+
+// R10.13: temporary files do not outlive the call that made them.
+func (c *Ctx) r1013() {
+	const rule = "R10.13"
+	c.R.Rule(rule, "a library function that creates a temporary file (os.CreateTemp, os.MkdirTemp) for its own use leaves nothing behind: the file is closed and removed when the function returns, whatever the path — a deferred call (or deferred function literal) that reaches os.Remove / os.RemoveAll with the file's name follows the creation, or every path from the creation to a return passes such a removal. A server that minifies through AddCmd with `$in` / `$out` otherwise fills the temp directory with one or two files per response")
+	n := 0
+	for _, rel := range libPkgs {
+		pk := c.P.Pkg(rel)
+		if pk == nil {
+			continue
+		}
+		info := pk.TypesInfo
+		for _, fd := range load.FuncDecls(pk) {
+			if fd.Body == nil {
+				continue
+			}
+			g := (*flow.Graph)(nil)
+			ast.Inspect(fd.Body, func(x ast.Node) bool {
+				as, ok := x.(*ast.AssignStmt)
+				if !ok || len(as.Rhs) != 1 || len(as.Lhs) < 1 {
+					return true
+				}
+				call, ok := ast.Unparen(as.Rhs[0]).(*ast.CallExpr)
+				if !ok {
+					return true
+				}
+				cn := calleeName(info, call)
+				if cn != "os.CreateTemp" && cn != "os.MkdirTemp" {
+					return true
+				}
+				id, ok := as.Lhs[0].(*ast.Ident)
+				if !ok {
+					return true
+				}
+				obj := info.ObjectOf(id)
+				n++
+				if g == nil {
+					g = c.graph(pk, fd)
+				}
+				removes := func(z ast.Node) bool {
+					hit := false
+					ast.Inspect(z, func(w ast.Node) bool {
+						ce, ok := w.(*ast.CallExpr)
+						if !ok {
+							return true
+						}
+						if rn := calleeName(info, ce); (rn == "os.Remove" || rn == "os.RemoveAll") && len(ce.Args) == 1 {
+							ast.Inspect(ce.Args[0], func(v ast.Node) bool {
+								if vi, ok := v.(*ast.Ident); ok && info.Uses[vi] == obj {
+									hit = true
+								}
+								return true
+							})
+						}
+						return true
+					})
+					return hit
+				}
+				deferred := false
+				ast.Inspect(fd.Body, func(z ast.Node) bool {
+					if d, ok := z.(*ast.DeferStmt); ok && removes(d) {
+						deferred = true
+					}
+					return true
+				})
+				ok2 := deferred
+				if !ok2 {
+					y := g.NodeOf(as)
+					if y != nil {
+						p := g.Path(flow.Search{From: []*flow.Node{y}, Goal: func(q *flow.Node) bool { return retStmt(q) != nil || q == g.Exit }, Avoid: func(q *flow.Node) bool {
+							a := q.Ast()
+							return a != nil && q.Kind == flow.KStmt && removes(a)
+						}})
+						ok2 = p == nil
+					}
+				}
+				c.R.Check(ok2, rule, fmt.Sprintf("%s.%s/temporary file %s removed before returning", pk.Name, load.FuncName(fd), id.Name), c.pos(as), "a deferred os.Remove of its name", "the temporary file created here is never removed: every call leaves it in the temp directory (`AddCmd(\"x\", exec.Command(\"tool\", \"$in\", \"$out\"))` leaks two files per minified document)")
+				return true
+			})
+		}
+	}
+	c.R.Floor(rule, "temporary files created in library packages", n, 2)
+}
